@@ -28,7 +28,10 @@ def run_cli(args):
         a += ["--canvas-height", str(ch)]
     rc, so, se = clirun.run(a)
     out = clirun.read_rpu_file(outp) if rc == 0 and os.path.exists(outp) else None
-    return rc, out, se[-400:].decode(errors="replace")
+    se = se.decode(errors="replace")
+    k = se.find("panicked at")
+    # with a backtrace enabled in the environment the message is far from the end: keep it
+    return rc, out, (se[k:k + 300].split("stack backtrace")[0].strip() if k >= 0 else se[-400:])
 
 
 def run_many(tag, items):
@@ -88,7 +91,7 @@ def first_mismatch(sp, frames_json):
     return None
 
 
-def explain(doc, cw, ch, frames_json, quirks=frozenset(), cap=4096):
+def explain(doc, cw, ch, frames_json, quirks=frozenset(), cap=1024):
     """(spec result, flips, mismatch): the resolution of the tie-ambiguous sites under which the tool's output is the
     specification's, searched over subsets of the ambiguous sites (small subsets first)"""
     sp = xmlspec.spec(doc, cw, ch, frozenset(), quirks)
@@ -277,7 +280,7 @@ def xmlenc_cases(rng, n):
     fixed = ["0", "1", "-1", "0.5", "-0.5", "2", "-2", "0.000244", "-0.000244", "0.000245", "0.999756", "0.999755", "1.5", "-3", "100"]
     for k in range(n):
         pick = (lambda: rng.choice(fixed)) if k % 5 == 0 else tv
-        m = k % 8
+        m = k % 10
         if m == 0:
             l, g, ga = pick(), pick(), pick()
             e = xmlspec.enc_trim(st, Fraction(l), Fraction(g), Fraction(ga), "")
@@ -316,10 +319,20 @@ def xmlenc_cases(rng, n):
             b = xmlspec.enc_l8(st, node, "")
             args = [node[1]] + [scaled(v) for v in node[2]] + [scaled(node[3]), scaled(node[4])] + [scaled(v) for v in node[5] + node[6]]
             cases.append(("xmlenc l8 " + ",".join(str(v) for v in args), "ok %d %s" % (b[1], ",".join(str(v) for v in b[2]))))
-        else:
+        elif m == 7:
             vs = xmlgen.gen_primaries(rng)
             cases.append(("xmlenc prim " + ",".join(str(scaled(v)) for v in vs),
                           "ok " + ",".join(str(v) for v in xmlspec.enc_primaries(st, vs, ""))))
+        elif m == 8:
+            vs = xmlgen.gen_primaries(rng, for_l9=True)
+            b = xmlspec.enc_l9(st, vs, "")
+            cases.append(("xmlenc l9 " + ",".join(str(scaled(v)) for v in vs), "ok %d %s" % (b[1], ",".join(str(v) for v in b[2]))))
+        else:
+            t = {"id": rng.below(256), "peak": rng.choice(xmlgen.NITS_POOL), "min": rng.choice(xmlgen.MIN_POOL),
+                 "prim": xmlgen.gen_primaries(rng, for_l9=rng.chance(1, 3))}
+            b = xmlspec.enc_l10(st, t, "")
+            cases.append(("xmlenc l10 %d,%d,%d,%s" % (t["id"], b[2][1], b[2][2], ",".join(str(scaled(v)) for v in t["prim"])),
+                          "ok %d %s" % (b[1], ",".join(str(v) for v in b[2]))))
     return cases
 
 
@@ -328,7 +341,6 @@ def xmlenc_cases(rng, n):
 # ---------------------------------------------------------------------------------------------
 
 def probes(ctx, rng):
-    import copy
     base = None
     while base is None:
         d = xmlgen.gen_doc(rng, max_shots=2, max_dur=2)
@@ -350,31 +362,42 @@ def probes(ctx, rng):
     items.append(("malformed: not well-formed XML", "<DolbyLabsMDF version=\"4.0.2\"><Outputs>", None, None))
     # 4. unsupported version
     items.append(("unsupported version 3.0.0", xmlgen.render(base).replace("5.1.0", "3.0.0").replace("5_1_0", "3_0_0"), None, None))
-    # 5. v5: a trim that refers to a non-HOME target
-    d = copy.deepcopy(base)
-    d["targets"][0]["app"] = "CINEMA"
-    d["shots"][0]["levels"] = [l1, ("L2", tid, ["0"] * 9)]
-    items.append(("v5 document with an L2 trim for a CINEMA target display", xmlgen.render(d), None, None))
-    # 6. a shot without a dynamic-data node of its own whose Frame carries one
-    d = copy.deepcopy(base)
-    d["shots"] = [dict(d["shots"][0], duration=3, levels=None, frames=[{"offset": 1, "levels": [("L1", ["0", "0.3", "0.9"])]}])]
-    items.append(("shot without own DVDynamicData, frame edit at offset 1 of 3 (L1 max 0.9)", xmlgen.render(d), None, None))
     res = run_many("c11p", [(t, cw, ch) for _, t, cw, ch in items])
     parsed = parse_frames([r[1] for r in res])
     for (what, _, _, _), (rc, out, se), fr in zip(items, res, parsed):
         kind = "ok" if rc == 0 else "error" if rc == 1 else "panic" if rc == 101 else "exit %s" % rc
-        extra = ""
-        if rc == 0 and fr and "frame edit at offset" in what:
-            mx = [[b["Level1"]["max_pq"] for b in f["vdr_dm_data"]["cmv29_metadata"]["ext_metadata_blocks"] if "Level1" in b] for f in fr if f]
-            extra = "; L1 max_pq per frame = %s (a frame-only trim would give it on frame 1 only)" % mx
-        ctx.notes.append("probe (outside the quantifier, observation only): %s -> %s%s%s"
-                         % (what, kind, extra, "" if rc in (0,) else " [" + se.strip().split("\n")[-1][:140] + "]"))
+        msg = [l.strip() for l in se.strip().split("\n") if l.strip() and not l.startswith("note:")]
+        ctx.notes.append("probe (outside the quantifier, observation only): %s -> %s%s"
+                         % (what, kind, "" if rc == 0 else " [" + " ".join(msg[:2])[:200] + "]"))
         ctx.count("probe=" + kind)
 
 
 # ---------------------------------------------------------------------------------------------
-# entry point
+# entry points
 # ---------------------------------------------------------------------------------------------
+
+def replay(ctx, path):
+    """./check C11 --replay replays/C11-….json : re-run the recorded document against the current tree"""
+    ctx.build_and_audit(need_cli=True)
+    rec = json.load(open(path))
+    f = rec.get("failure", rec)
+    text = f["input"]
+    if not text.lstrip().startswith("<"):
+        text = open(text).read()
+    cw, ch = (f.get("canvas") or [None, None])[:2]
+    doc = xmlgen.from_xml(text)
+    (rc, out, se), = run_many("c11r", [(text, cw, ch)])
+    failure, sp, flips, stats = judge(doc, cw, ch, rc, out, se, parse_frames([out])[0] if out else [])
+    ctx.evaluations += 1
+    if failure is not None:
+        failure["input"] = text[:6000]
+        failure["canvas"] = [cw, ch]
+        ctx.oracle_fail(failure)
+        print("replay: still failing: %s" % json.dumps({k: v for k, v in failure.items() if k != "input"})[:600])
+    else:
+        print("replay: the document now generates the documented encodings (exit %s, %d frames)" % (rc, stats["frames"]))
+    return ctx.finish()
+
 
 def run(ctx):
     ctx.rule = ("CM XML documents rendered from an abstract model: versions 2.0.5 / 4.0.2 / 5.0.0 / 5.1.0, 1..5 shots in sorted or "
@@ -408,15 +431,17 @@ def run(ctx):
 
     # 2. documents: the repository's samples first, then generated ones
     docs = []
-    for f in sorted(glob.glob(os.path.join(common.REPO, "assets", "tests", "*.xml"))):
+    files = [(f, "corpus") for f in sorted(glob.glob(os.path.join(common.VERIF, "corpus", "C11", "*.xml")))] + \
+            [(f, "sample") for f in sorted(glob.glob(os.path.join(common.REPO, "assets", "tests", "*.xml")))]
+    for f, kind in files:
         try:
             d = xmlgen.from_xml(open(f).read())
-        except Exception as e:                      # a sample this reader does not understand is skipped, visibly
-            ctx.notes.append("sample %s not read: %s" % (os.path.basename(f), e))
+        except Exception as e:                      # a document this reader does not understand is skipped, visibly
+            ctx.notes.append("%s %s not read: %s" % (kind, os.path.basename(f), e))
             continue
-        for cw, ch in ((3840, 2160), (None, None)):
-            docs.append((d, cw, ch, open(f).read(), "sample:" + os.path.basename(f)))
-    n = 150 if quick else 4000
+        for cw, ch in ((3840, 2160), (None, None)) if kind == "sample" else ((3840, 2160),):
+            docs.append((d, cw, ch, open(f).read(), kind + ":" + os.path.basename(f)))
+    n = 300 if quick else 4000
     drng = rng.fork("docs")
     for i in range(n):
         k = drng.below(24)
@@ -438,7 +463,8 @@ def run(ctx):
             ctx.count(key)
         ctx.count("origin=" + origin.split(":")[0])
         ctx.count("canvas=" + ("given" if cw and ch else "absent" if not cw and not ch else "partial"))
-        ctx.count("result=" + ("ok" if rc == 0 else "err-expected" if (rc == 1 and failure is None) else "other"))
+        ctx.count("result=" + ("known-deviation" if failure is not None and failure["shape"].startswith("known-deviation") else
+                               "failed" if failure is not None else "ok" if rc == 0 else "err-expected"))
         tie_ambiguous += len(sp["ambiguous"])
         tie_flipped += len(flips)
         sites_total += sp["sites"]
@@ -450,7 +476,7 @@ def run(ctx):
             if n_fail <= 3 and origin == "gen":
                 mdoc, failure = shrink(doc, cw, ch, failure)
                 text = xmlgen.render(mdoc)
-            failure["input"] = save_xml(ctx, text, k)
+            failure["input"] = save_xml(ctx, text, k) if n_fail <= 5 else text[:6000]
             failure["canvas"] = [cw, ch]
             failure["origin"] = origin
             failure["tie_ambiguous_sites_in_document"] = [a[1] for a in xmlspec.spec(mdoc, mcw, mch)["ambiguous"]][:20]
